@@ -67,6 +67,8 @@ def correspondence(ctx, violations, known_hits):
     r["evaluations"] += real["terminal_stdin"]["sessions"]
     real["full_output_mode"] = full_output_mode(ctx, violations, n=(60 if ctx.tier == "quick" else 1200))
     r["evaluations"] += real["full_output_mode"]["sessions"]
+    real["flag_positions"] = flag_positions(ctx, violations)
+    r["evaluations"] += real["flag_positions"]["sessions"]
     if ctx.tier != "quick":
         real["very_long_run"] = very_long_run(ctx, violations)
     ctx.cleanup()
@@ -159,6 +161,38 @@ def full_output_mode(ctx, violations, n):
                                    "debug_stderr_tail": se.decode("utf-8", "replace")[-400:],
                                    "note": "without --minimal: `lace debug --command SCRIPT` and `lace run` must give the same standard output and exit status"})
     return {"sessions": len(metas) - skipped, "skipped_nonterminating": skipped, "mismatches": bad}
+
+
+def flag_positions(ctx, violations):
+    """`lace [FLAGS] run P [FLAGS]` against `lace [FLAGS] debug P [FLAGS] --command SCRIPT` for every place the feature flag can
+    stand (before the sub-command, after it, both, neither), on programs that need the stack extension and programs that do
+    not: however the process was configured, the debugged run prints and returns what the plain run does."""
+    import os
+    import clicommon
+    exe = ctx.cli()
+    d = clicommon.fresh_dir(ctx, "c09flags")
+    progs = {"stack.asm": "lea r0 m\npush r0\npop r1\nadd r0 r1 #0\nputs\ncall f\nhalt\nf ld r0 c\nout\nrets\nc .fill x21\nm .stringz \"ok\"\n",
+             "plain.asm": "lea r0 m\nputs\njsr f\nhalt\nf ld r0 c\nout\nret\nc .fill x21\nm .stringz \"ok\"\n",
+             "raw.asm": "add r0 r0 #1\n.fill xD040\nputn\nhalt\n"}
+    for nm, text in progs.items():
+        open(os.path.join(d, nm), "w").write(text)
+    n = bad = 0
+    for pre in ([], ["-f", "stack"], ["--features=stack"], ["-f", ""]):
+        for post in ([], ["-f", "stack"], ["-f", ""]):
+            for nm in progs:
+                for script in ("continue", "step\nstep\nregisters\ncontinue", "break add f\ncontinue\nbreak list\ncontinue"):
+                    for mini in (["--minimal"], []):
+                        plain = clicommon.run_cli(exe, pre + ["run", nm] + mini + post, d)
+                        dbg = clicommon.run_cli(exe, pre + ["debug", nm] + mini + post + ["--command", script], d)
+                        n += 1
+                        if (plain[0], plain[1]) != (dbg[0], dbg[1]):
+                            bad += 1
+                            if bad <= 4:
+                                violations.append({"kind": "flag-position-run-vs-debug", "run": ["lace"] + pre + ["run", nm] + mini + post,
+                                                   "debug": ["lace"] + pre + ["debug", nm] + mini + post + ["--command", script], "source": text,
+                                                   "run_result": [plain[0], plain[1].decode("utf-8", "replace")[-300:]],
+                                                   "debug_result": [dbg[0], dbg[1].decode("utf-8", "replace")[-300:]], "debug_stderr": dbg[2].decode("utf-8", "replace")[-300:]})
+    return {"sessions": n, "mismatches": bad}
 
 
 def very_long_run(ctx, violations):
